@@ -14,6 +14,8 @@ Requests:
   clump <size> <L..>                           _clump_bundle(elements, size)  (clump lengths)
   sendc <L..>                                  send_clumped_bundles(t, *elements) (bundle lengths)
   sync  <L..>                                  sync(elements=...)                 (bundle lengths)
+  dsend <B..> <pv>                             SynthDef._do_send: recv | load
+  bna reset | bna msg <pv> | bna ext <L..> | bna sync <L..|-> | bna exit       BundleNetAddr: what each op sends
 -/
 import Sc3Verif.C06.Model
 open Sc3Verif.C06
@@ -191,11 +193,53 @@ def handle (line : String) : String :=
     | none => "bad-op"
   | _ => "bad-op"
 
-partial def loop (h : IO.FS.Stream) (out : IO.FS.Stream) : IO Unit := do
+def fmtPlan : Except Err (List (List PV)) → String
+  | .ok cs => ",".intercalate (cs.map fun c => toString c.length)
+  | .error e => "err " ++ errName e
+
+def fmtSends (l : List BSend) : String :=
+  ",".intercalate ((l.map fun
+    | .clumped els => fmtPlan (sendClumpedPlan els)
+    | .sync none => "1"                                   -- bundle(latency, ['/sync', id])
+    | .sync (some els) => fmtPlan (syncPlan (fun k => 1000 + k) els)).filter (· ≠ ""))
+
+/-- `bna …` requests keep a `BundleNetAddr`; `dsend <B..> <pv>` answers `recv` / `load` -/
+def handleSt (b : BNA) (line : String) : BNA × String :=
+  match (line.trimAscii.toString.splitOn " ").filter (· ≠ "") with
+  | ["bna", "reset"] => (BNA.init, "reset")
+  | "bna" :: "msg" :: toks =>
+    match parsePV toks with
+    | some (e, []) => let (b', s) := b.step (.msg e); (b', "ok " ++ fmtSends s)
+    | _ => (b, "bad-op")
+  | "bna" :: "ext" :: toks =>
+    match parseList toks with
+    | some es => let (b', s) := b.step (.extend es); (b', "ok " ++ fmtSends s)
+    | none => (b, "bad-op")
+  | ["bna", "sync", "-"] => let (b', s) := b.step (.sync none); (b', "ok " ++ fmtSends s)
+  | "bna" :: "sync" :: toks =>
+    match parseList toks with
+    | some es => let (b', s) := b.step (.sync (some es)); (b', "ok " ++ fmtSends s)
+    | none => (b, "bad-op")
+  | ["bna", "exit"] => (b, "ok " ++ fmtSends b.exit)
+  | "dsend" :: toks =>
+    match parsePV toks with
+    | some (.bytes d, rest) =>
+      match parsePV rest with
+      | some (c, []) =>
+        (b, match doSendFits d c with
+          | .ok true => "recv"
+          | .ok false => "load"
+          | .error e => "err " ++ errName e)
+      | _ => (b, "bad-op")
+    | _ => (b, "bad-op")
+  | _ => (b, handle line)
+
+partial def loop (h : IO.FS.Stream) (out : IO.FS.Stream) (b : BNA) : IO Unit := do
   let line ← h.getLine
   if line.isEmpty then return ()
-  out.putStrLn (handle line)
-  loop h out
+  let (b', o) := handleSt b line
+  out.putStrLn o
+  loop h out b'
 
 def main : IO Unit := do
-  loop (← IO.getStdin) (← IO.getStdout)
+  loop (← IO.getStdin) (← IO.getStdout) BNA.init
